@@ -3165,7 +3165,57 @@ def check_sort_comparators(mir):
         else:
             res.update(verdict=str(r))
         out.append(res)
+    out.append(check_unique_key(mir))
     return out
+
+
+def check_unique_key(mir):
+    """unique: what is remembered in the `seen` set is derived from the value that is compared (the attribute
+    when one is given) - by clone or by lower-casing ITS string - never from the item itself"""
+    text = function_text(mir, r'^fn filters::builtins::unique\(')
+    if text is None:
+        return dict(function='filters::unique', filter='unique', verdict='unknown', conflict='unique not found in the MIR')
+    fn = parse_function(text)
+    refs = {}
+    for blk in fn['blocks'].values():
+        for st in blk['stmts']:
+            m = re.match(r'(_\d+) = &(?:mut )?(_\d+);', st)
+            if m:
+                refs[m.group(1)] = m.group(2)
+    key_local = memo = None
+    as_str_on, clones_into = [], {}
+    for blk in fn['blocks'].values():
+        if blk['cleanup']:
+            continue
+        dst, callee = call_of(blk['term'])
+        if not callee:
+            continue
+        args = re.findall(r'(?:move|copy) (_\d+)', callee[callee.find('('):])
+        if re.match(r'value::Value::get_path_or_default\(', callee):
+            key_local = dst
+        elif re.match(r'BTreeSet::<value::Value>::contains::<', callee) and len(args) == 2:
+            memo = refs.get(args[1], args[1])
+        elif re.match(r'value::Value::as_str\(', callee) and args:
+            as_str_on.append(refs.get(args[0], args[0]))
+        elif re.match(r'<value::Value as Clone>::clone\(', callee) and args:
+            clones_into.setdefault(dst, []).append(refs.get(args[0], args[0]))
+    if key_local is None or memo is None:
+        return dict(function='filters::unique', filter='unique', verdict='unknown', conflict='attribute lookup / seen-set test not found in unique')
+    t0 = time.time()
+    s_ = z3.Solver()
+    K, = z3.Ints('key_local')
+    srcs = as_str_on + clones_into.get(memo, [])
+    s_.add(K == int(key_local[1:]))
+    s_.add(z3.Or(*[K != int(x[1:]) for x in srcs]) if srcs else z3.BoolVal(True))
+    r = s_.check()
+    res = dict(function='filters::unique', filter='unique', key_local=key_local, remembered_local=memo, as_str_on=as_str_on, cloned_from=clones_into.get(memo, []), z3_s=round(time.time() - t0, 3))
+    if not srcs:
+        res.update(verdict='unknown', conflict='no source of the remembered value found')
+    elif r == z3.unsat:
+        res.update(verdict='sat')
+    else:
+        res.update(verdict='unsat', conflict='the value remembered as seen is not derived from the compared value (%s) on some branch: as_str on %s, cloned from %s' % (key_local, as_str_on, clones_into.get(memo, [])))
+    return res
 
 
 def run_sort_comparators(prop, tier, seed):
@@ -3177,8 +3227,8 @@ def run_sort_comparators(prop, tier, seed):
         ev['problems'].append('engine M: %s' % e)
         return ev
     results = check_sort_comparators(mir)
-    if len(results) < 3:
-        ev['problems'].append('engine M: sort / dictsort / groupby not all found in the MIR dump')
+    if len(results) < 4:
+        ev['problems'].append('engine M: sort / dictsort / groupby / unique not all found in the MIR dump')
     err = build_tool('render')
     if err:
         ev['problems'].append('engine M: render tool did not build')
@@ -3204,6 +3254,18 @@ def run_sort_comparators(prop, tier, seed):
     d = {'b': 1, 'A': 2, 'c': 0}
     add('dictsort', '{% for k, v in d|dictsort %}{{ k }}{% endfor %}', dict(d=d), ''.join(sorted(d, key=str.lower)))
     add('dictsort', "{% for k, v in d|dictsort(by='value', reverse=true) %}{{ k }}{% endfor %}", dict(d=d), ''.join(sorted(d, key=lambda k: d[k], reverse=True)))
+    # unique: order-preserving, duplicate-free under the (by default case-insensitive) equality of the compared value
+    def uniq(seq, key):
+        seen, outl = set(), []
+        for x in seq:
+            if key(x) not in seen:
+                seen.add(key(x))
+                outl.append(x)
+        return outl
+    add('unique', "{{ items|unique(attribute='s')|map(attribute='n')|join }}", dict(items=items), ''.join(x['n'] for x in uniq(items, lambda x: x['s'].lower())))
+    add('unique', "{{ items|unique(attribute='s', case_sensitive=true)|map(attribute='n')|join }}", dict(items=items), ''.join(x['n'] for x in uniq(items, lambda x: x['s'])))
+    add('unique', '{{ w|unique|join }}', dict(w=['b', 'A', 'a', 'B', 'b']), ''.join(uniq(['b', 'A', 'a', 'B', 'b'], str.lower)))
+    add('unique', '{{ w|unique(case_sensitive=true)|join }}', dict(w=['b', 'A', 'a', 'B', 'b']), ''.join(uniq(['b', 'A', 'a', 'B', 'b'], str)))
     inp = '\n'.join(json.dumps(q) for _, q, _ in reqs) + '\n'
     p = subprocess.run([os.path.join(BUILD, 'native', 'debug', 'render')], input=inp, stdout=subprocess.PIPE, stderr=subprocess.PIPE, text=True, timeout=120)
     outs = [json.loads(l) for l in p.stdout.split('\n') if l.strip()]
